@@ -102,6 +102,11 @@ CHECKS = {
   text="Model checking by trace validation: the traced permutation and sponge are run on the recording backend over P=32749 with the real parameter tables (bn128 set, bls12-381 set, toy set; TLC reduces the constants mod P itself) for all/sampled inputs in {0,1,2}^k up to 3 blocks, random field elements and boolean / fixed-point typed inputs, and TLC recomputes every output with Poseidon.tla; constraint counts are equal across inputs of a class; subset-sum over all bit vectors up to length 6 with independently derived SHA-512 coefficients; padding injectivity is model checked on the spec for 1.2M message pairs; the published x5_254_5 / x5_255_5 permutation vectors are reproduced on the real zkinterface / bellman configurations; 18 selection paths (environment, pre-import, auto-detection) each in a fresh interpreter are judged for the parameter set in use.",
   note="Reference parameters are the repository's tables as data; no published vector exists for the curve25519 set; known finding: parameters follow the generic name when a specific zkinterface module is pre-imported (C19).",
   design="5/C20"),
+ "C12": dict(
+  technique="TLC evaluation of Qap.tla (EqSat, PubLinked, OneContext, SplitComplete, SameFn, Glue) on the qaptools text files parsed by an independent reader, one interpreter per call history, small-prime instantiation",
+  text="Model checking by trace validation of artefacts: call histories (main only; a sub-circuit called 1-3 times; two different bodies under one name; equal bodies; nested sub-circuits; structured arguments/results; a comparison inside a sub-circuit) x value pairs incl. negatives run on pysnark.qaptools.backend over p=251 with failing stub executables; TLC decides that every equation holds on the wire and I/O values, every public value is listed and linked, every equation stays in one context, the per-function files written by the backend's own splitting step contain exactly the normalised equations and blocks of a call, calls of one name have equal circuits and digests or the inconsistency is reported, and every call is glued by paired blocks of equal length with pairwise equal values and a shared rnd1 listing all arguments and results.",
+  note="External qaptools binaries are stubs that fail: key generation / proving itself is not exercised. Known finding: the global constant one inside a sub-circuit mixes contexts.",
+  design="5/C12"),
 }
 
 NOT_YET = "check not built yet in this round (planned, see DESIGN.md section 5)"
